@@ -7,9 +7,28 @@ import Tau.Proofs.PrattFuel
 set_option linter.unusedSimpArgs false
 namespace Tau
 
-/-- Condition ASTs over identifiers. -/
+/-- The operands of a comparison: a cast field or a numeric literal. -/
+inductive CmpArg where
+  | cast (f : Str) (m : ModSym)
+  | int (i : Int)
+  | flt (bits : Nat)
+
+def CmpArg.toExpr : CmpArg → Expr
+  | .cast f m => .cast f m
+  | .int i => .int i
+  | .flt b => .float b
+
+def CmpArg.pp : CmpArg → List Token
+  | .cast f m => [.modifier m, .lparen, .ident f, .rparen]
+  | .int i => [.int i]
+  | .flt b => [.float b]
+
+/-- Condition ASTs over identifiers and comparisons (only the operand combinations `parse_led`
+    accepts can be built: the constructor carries that check). -/
 inductive Cond where
   | id (i : Str)
+  | cmp (l : CmpArg) (op : BoolSym) (r : CmpArg)
+      (ok : ledCheck op l.toExpr r.toExpr = .ok () ∧ op ≠ .and ∧ op ≠ .or)
   | all (i : Str)
   | of (i : Str) (n : Nat)
   | not (c : Cond)
@@ -19,6 +38,7 @@ inductive Cond where
 
 def Cond.toExpr : Cond → Expr
   | .id i => .ident i
+  | .cmp l op r _ => .bin l.toExpr op r.toExpr
   | .all i => .match .all (.ident i)
   | .of i n => .match (.of n) (.ident i)
   | .not c => .negate c.toExpr
@@ -30,6 +50,7 @@ def Cond.toExpr : Cond → Expr
 def Cond.prec : Cond → Nat
   | .and _ _ => 70
   | .or _ _ => 80
+  | .cmp _ _ _ _ => 90
   | .not _ => 95
   | _ => 100
 
@@ -40,6 +61,7 @@ def paren (ts : List Token) : List Token := Token.lparen :: ts ++ [Token.rparen]
     not higher — that asymmetry is left associativity). -/
 def Cond.pp : Cond → List Token
   | .id i => [.ident i]
+  | .cmp l op r _ => l.pp ++ .op op :: r.pp
   | .all i => [.matchAll, .lparen, .ident i, .rparen]
   | .of i n => [.matchOf, .lparen, .ident i, .comma, .int n, .rparen]
   | .not c => .miscNot :: (if c.prec ≥ 95 then c.pp else paren c.pp)
@@ -96,6 +118,18 @@ theorem Bal.wrap {ts : List Token} (h : Bal ts) : Bal (paren ts) := by
 theorem Cond.pp_bal (c : Cond) : Bal c.pp := by
   induction c with
   | id i => exact Bal.single _ (by simp) (by simp)
+  | cmp l op r _ =>
+    have hop : ∀ o : CmpArg, Bal o.pp := by
+      intro o
+      cases o with
+      | cast f m =>
+        have : [Token.modifier m, .lparen, .ident f, .rparen] = [Token.modifier m] ++ paren [.ident f] := rfl
+        rw [CmpArg.pp, this]
+        exact Bal.append (Bal.single _ (by simp) (by simp)) (Bal.wrap (Bal.single _ (by simp) (by simp)))
+      | int i => exact Bal.single _ (by simp) (by simp)
+      | flt b => exact Bal.single _ (by simp) (by simp)
+    simp only [Cond.pp]
+    exact Bal.append (hop l) (Bal.append (a := [Token.op op]) (Bal.single _ (by simp) (by simp)) (hop r))
   | all i =>
     have : [Token.matchAll, .lparen, .ident i, .rparen] = [Token.matchAll] ++ paren [.ident i] := rfl
     rw [Cond.pp, this]
@@ -165,16 +199,19 @@ theorem loop_led (f rbp : Nat) (left right : Expr) (sym : BoolSym) (ts rest : Li
 def Fits (rbp : Nat) : Cond → Prop
   | .and _ _ => rbp < 70
   | .or _ _ => rbp < 80
+  | .cmp _ _ _ _ => rbp < 90
   | _ => True
 
 def Tail (rest : List Token) : Cond → Prop
   | .and _ _ => headBp rest ≤ 70
   | .or _ _ => headBp rest ≤ 80
+  | .cmp _ _ _ _ => headBp rest ≤ 90
   | _ => True
 
 /-- Fuel that suffices to parse the printing of `c`. -/
 def need : Cond → Nat
   | .id _ => 2
+  | .cmp _ _ _ _ => 6
   | .all _ => 2
   | .of _ _ => 2
   | .not c => need c + 6
@@ -280,6 +317,33 @@ theorem roundTrip : ∀ c : Cond, RoundTrip c := by
     show parseExpr ((f + 1) + 1) rbp (Token.ident i :: rest) = _
     simp only [parseExpr, parseNud]
     exact parseLoop_mono (by omega) hloop
+  | cmp l op r ok =>
+    intro f rbp rest r' hfit htail hloop
+    simp only [Fits] at hfit
+    simp only [Tail] at htail
+    have hf := loop_pos hloop
+    have hbp : (Token.op op).bp = 90 := by
+      have h1 := ok.2.1
+      have h2 := ok.2.2
+      cases op <;> first | rfl | exact absurd rfl h1 | exact absurd rfl h2
+    have hnud : ∀ (o : CmpArg) (k : Nat) (ts : List Token), parseNud (k + 1) (o.pp ++ ts) = .ok (o.toExpr, ts) := by
+      intro o k ts
+      cases o with
+      | cast f' m => simp [CmpArg.pp, CmpArg.toExpr, parseNud, parseParenIdent]
+      | int i => simp [CmpArg.pp, CmpArg.toExpr, parseNud]
+      | flt b => simp [CmpArg.pp, CmpArg.toExpr, parseNud]
+    have hright : parseExpr (f + 3) (Token.op op).bp (r.pp ++ rest) = .ok (r.toExpr, rest) := by
+      show parseExpr ((f + 2) + 1) _ _ = _
+      simp only [parseExpr, hnud r (f + 1) rest]
+      exact loop_stop (f + 1) _ _ rest (by rw [hbp]; exact htail)
+    have hafter : parseLoop (f + 4) rbp l.toExpr (Token.op op :: (r.pp ++ rest)) = .ok r' := by
+      apply loop_led (f + 3) rbp l.toExpr r.toExpr op _ rest r' (by omega) hright ok.1
+      exact parseLoop_mono (by omega) hloop
+    show parseExpr ((f + 5) + 1) rbp ((l.pp ++ Token.op op :: r.pp) ++ rest) = _
+    have e : (l.pp ++ Token.op op :: r.pp) ++ rest = l.pp ++ (Token.op op :: (r.pp ++ rest)) := by simp
+    rw [e]
+    simp only [parseExpr, hnud l (f + 4) _]
+    exact parseLoop_mono (by omega) hafter
   | all i =>
     intro f rbp rest r _ _ hloop
     show parseExpr ((f + 1) + 1) rbp (Token.matchAll :: Token.lparen :: Token.ident i :: Token.rparen :: rest) = _
@@ -342,6 +406,7 @@ theorem roundTrip : ∀ c : Cond, RoundTrip c := by
 theorem need_le (c : Cond) : need c ≤ 10 * c.pp.length := by
   induction c with
   | id i => simp [need, Cond.pp]
+  | cmp l op r _ => simp [need, Cond.pp]; omega
   | all i => simp [need, Cond.pp]
   | of i n => simp [need, Cond.pp]
   | not c ih =>
